@@ -27,12 +27,13 @@ LEVEL = "model_checking"
 MASK = (1 << 64) - 1
 DOMS = ["sys", "prog", "orig"]
 DELAYS = ["dtsPts", "crDts", "rapCr"]
+FLAGS = ["set_disc", "del_disc", "del_end", "del_random", "set_start", "del_start", "del_ref", "copy_end", "copy_ref", "set_random"]
 TYN = {0: "none", 1: "cr", 2: "dts", 3: "pts", 4: "rap"}
 NEG = [("rebase_noconv", "RebasePreserves"), ("rap_after_cr", "RapNotAfterCr"),
        ("dup_drops_delay", "RebasePreserves"), ("getdts_wrong_delay", "Algebra"),
-       ("setdate_keeps_type", "SetReadsBack")]
+       ("setdate_keeps_type", "SetReadsBack"), ("flag_clears_types", "RebasePreserves")]
 ACTIONS = ["KSetDate", "KRebaseOk", "KRebaseErr", "KDelete", "KAdd", "KAddUnspec", "KSetDelay",
-           "KDelDelay", "KSetRapOk", "KSetRapErr", "KDup", "KGet", "KGetDelay"]
+           "KDelDelay", "KSetRapOk", "KSetRapErr", "KDup", "KFlag", "KGet", "KGetDelay"]
 SRCS = ["replay_clock.c", "lib/upipe/uref_std.c", "lib/upipe/udict_inline.c", "lib/upipe/umem_alloc.c"]
 
 
@@ -73,6 +74,8 @@ def cmd_of(s):
         return "setrap %s %x" % (s["dom"], s["v"])
     if op == "Dup":
         return "dup %s" % s["dom"]
+    if op == "Flag":
+        return "flag %s" % s["dom"]
     if op == "Get":
         return "get %s %d" % (s["dom"], s["ty"])
     if op == "GetDelay":
@@ -119,7 +122,7 @@ def event_of(s, line):
         e["dom"] = s["dom"]
     elif op in ("SetDelay", "DeleteDelay", "GetDelay"):
         e["w"] = s["dom"]
-    elif op == "Dup":
+    elif op in ("Dup", "Flag"):
         e["which"] = s["dom"]
     if op in ("SetDate", "AddDate", "SetDelay", "SetRap"):
         e["v"] = limbs(s["v"])
@@ -270,7 +273,7 @@ def judge_and_report(ctx, binp, audit, steps, source, prediction=None):
 # --------------------------------------------------------------- generators
 EDGE = [0, 1, 2, 1 << 63, MASK - 2, MASK - 1, MASK]
 KINDS = ["SetDate"] * 5 + ["Rebase"] * 4 + ["AddDate"] * 2 + ["DeleteDate"] + ["SetDelay"] * 3 + \
-        ["DeleteDelay"] + ["SetRap"] * 2 + ["Dup"] + ["Get"] * 5 + ["GetDelay"]
+        ["DeleteDelay"] + ["SetRap"] * 2 + ["Dup"] + ["Flag"] * 2 + ["Get"] * 5 + ["GetDelay"]
 
 
 def rnd_val(rng, pool):
@@ -305,6 +308,8 @@ def rnd_exec(rng, n):
             s["dom"] = rng.choice(DELAYS)
         elif op == "Dup":
             s["dom"] = rng.choice(["copy", "orig"])
+        elif op == "Flag":
+            s["dom"] = rng.choice(FLAGS)
         if op in ("SetDate", "AddDate", "SetDelay", "SetRap"):
             s["v"] = rnd_val(rng, pool)
         steps.append(s)
